@@ -268,7 +268,21 @@ impl Encoder for Codec {
     type Item = Encoded;
     type Error = EncodeError;
 
-    fn encodev(&self, mut item: Self::Item, dst: &mut BytePages) -> Result<(), EncodeError> {
+    fn encodev(&self, item: Self::Item, dst: &mut BytePages) -> Result<(), EncodeError> {
+        let start = dst.len();
+        let result = self.encode_item(item, dst);
+        if result.is_err() && dst.len() > start {
+            // failed encode must not leave a partial packet behind
+            let mut keep = dst.split_to(start);
+            dst.clear();
+            keep.move_to(dst);
+        }
+        result
+    }
+}
+
+impl Codec {
+    fn encode_item(&self, mut item: Encoded, dst: &mut BytePages) -> Result<(), EncodeError> {
         // handle [MQTT 3.1.2.11.7]
         if self.flags.get().contains(CodecFlags::NO_PROBLEM_INFO) {
             match item {
